@@ -209,7 +209,7 @@ func sqlC10Walk(args []string) error {
 	dir := args[2]
 	os.MkdirAll(dir, 0o755)
 	rng := rand.New(rand.NewSource(envSeed()))
-	kindName := map[string]string{"skip": "skiplist", "btree": "btree", "none": "none"}
+	kindName := map[string]string{"skip": "skiplist", "btree": "btree", "hash": "hash", "none": "none"}
 	for wi, w := range walks {
 		s, err := newFileRun(tw, "C10", dir, 512)
 		if err != nil {
@@ -221,7 +221,9 @@ func sqlC10Walk(args []string) error {
 				s.scan(t)
 				s.selectQ(t, atom(0, ">=", 0), nil, false)
 				s.idxPoint(t, 0, rng.Intn(NRanks-1))
-				s.idxRange(t, 0, -2, -2)
+				if t.kinds[0] != "hash" {
+					s.idxRange(t, 0, -2, -2)
+				}
 			}
 		}
 		for _, st := range w {
